@@ -1,7 +1,7 @@
 //! Exports a builder [`Builder`].
 
 use crate::{
-    AddressHeaderTag, ConsoleHeaderTag, EfiBootServiceHeaderTag, EntryAddressHeaderTag,
+    AddressHeaderTag, ConsoleHeaderTag, EfiBootServiceHeaderTag, EndHeaderTag, EntryAddressHeaderTag,
     EntryEfi32HeaderTag, EntryEfi64HeaderTag, FramebufferHeaderTag, HeaderTagISA,
     InformationRequestHeaderTag, ModuleAlignHeaderTag, Multiboot2BasicHeader, RelocatableHeaderTag,
 };
@@ -154,6 +154,9 @@ impl Builder {
         if let Some(tag) = self.relocatable_tag.as_ref() {
             byte_refs.push(tag.as_bytes().as_ref());
         }
+        // The tags are terminated by an end tag (type 0, size 8).
+        let end_tag = EndHeaderTag::new();
+        byte_refs.push(end_tag.as_bytes().as_ref());
         // TODO add support for custom tags once someone requests it.
         new_boxed(header, byte_refs.as_slice())
     }
